@@ -21,28 +21,29 @@ Lemma deserialize_url_make cu c p nm h w body al af rs r :
   allowed_ok al nm = true ->
   deserialize_problem_cu cu c body h w = Ok r ->
   deserialize_url_cu cu c (make_url p nm h w body) al af rs =
-  Ok (match r with None => None | Some pb => Some (if rs then VTup [VInt h; VInt w; pb] else pb) end).
+  Ok (match r with None => None | Some VNone => None
+      | Some pb => Some (if rs then VTup [VInt h; VInt w; pb] else pb) end).
 Proof.
   intros Hp Hn Hb Hh Hw Hal Hde. unfold deserialize_url_cu.
   rewrite (url_match_make p nm h w body Hp Hn Hb Hh Hw).
   destruct (str_nat_digits w Hw) as (_ & _ & Ew). destruct (str_nat_digits h Hh) as (_ & _ & Eh).
-  rewrite Ew, Eh. simpl. rewrite Hal. simpl. rewrite Hde. simpl. destruct r; reflexivity.
+  rewrite Ew, Eh. simpl. rewrite Hal. simpl. rewrite Hde. simpl. destruct r as [[]|]; reflexivity.
 Qed.
 
 (* if the body round-trips, so does the URL, with the dimensions *)
 Theorem url_level_roundtrip cu sw dw h w pb pb' body :
   wrappers_consistent sw dw -> 0 <= h -> 0 <= w ->
   serialize_problem_cu cu (sw_comb sw) pb h w = Ok body -> valid_body body ->
-  deserialize_problem_cu cu (sw_comb sw) body h w = Ok (Some pb') ->
+  deserialize_problem_cu cu (sw_comb sw) body h w = Ok (Some pb') -> pb' <> VNone ->
   run_ser_sized cu sw h w pb = Ok (make_url default_prefix (sw_puzzle sw) h w body) /\
   run_de cu dw (make_url default_prefix (sw_puzzle sw) h w body) = Ok (Some (sized dw h w pb')).
 Proof.
-  intros (Hc & Hn & Hal) Hh Hw Hser Hb Hde. split.
+  intros (Hc & Hn & Hal) Hh Hw Hser Hb Hde Hnn. split.
   - unfold run_ser_sized, serialize_url_cu. rewrite Hser. reflexivity.
   - unfold run_de. rewrite <- Hc.
     rewrite (deserialize_url_make cu (sw_comb sw) default_prefix (sw_puzzle sw) h w body _ _ _ (Some pb')
                default_prefix_valid Hn Hb Hh Hw Hal Hde).
-    reflexivity.
+    destruct pb'; try reflexivity. congruence.
 Qed.
 
 (* the body has no newline *)
@@ -89,11 +90,11 @@ Theorem url_level_roundtrip_nl cu sw dw h w pb pb' body :
   wrappers_consistent sw dw -> 0 <= h -> 0 <= w ->
   cust_good (cu_env cu h w) -> nl_free (sw_comb sw) = true ->
   serialize_problem_cu cu (sw_comb sw) pb h w = Ok body ->
-  deserialize_problem_cu cu (sw_comb sw) body h w = Ok (Some pb') ->
+  deserialize_problem_cu cu (sw_comb sw) body h w = Ok (Some pb') -> pb' <> VNone ->
   run_ser_sized cu sw h w pb = Ok (make_url default_prefix (sw_puzzle sw) h w body) /\
   run_de cu dw (make_url default_prefix (sw_puzzle sw) h w body) = Ok (Some (sized dw h w pb')).
 Proof.
-  intros Hc Hh Hw Hcu Hnl Hser Hde.
+  intros Hc Hh Hw Hcu Hnl Hser Hde Hnn.
   eapply url_level_roundtrip; eauto. eapply serialize_body_good; eauto.
 Qed.
 
@@ -188,6 +189,7 @@ Proof.
   { eapply serialize_body_good; [apply no_custom_cu_good| |exact Hser]. rewrite Hc. exact Hnl. }
   assert (Hde : deserialize_problem_cu no_custom (sw_comb sw) body h w = Ok (Some pb)).
   { rewrite Hc in *. apply grid_body_roundtrip; auto. eapply accepts_grid_cells; eauto. }
+  assert (Hnn : pb <> VNone) by (destruct Hshape as (-> & _); discriminate).
   destruct (url_level_roundtrip no_custom sw dw h w pb pb body Hcons) as [H1 H2]; auto; try lia.
   split.
   - destruct Hshape as (Hpb & Hlen & Hrows).
@@ -214,10 +216,15 @@ Proof.
   intros Hst Hc Hcons h w rs Hh Hw Hv.
   destruct (Hst h w skip allow rs Hh Hw Hv) as (s & rs' & Hser & Hcan & Heq & Hde).
   exists s, rs'.
-  destruct (url_level_roundtrip_nl no_custom sw dw h w (rooms_to_pv rs) (rooms_to_pv rs') s Hcons) as [H1 H2];
-    try lia; try (rewrite Hc; first [reflexivity | exact Hser | exact Hde]).
-  - apply no_custom_cu_good.
-  - auto.
+  assert (HU : run_ser_sized no_custom sw h w (rooms_to_pv rs) = Ok (make_url default_prefix (sw_puzzle sw) h w s) /\
+               run_de no_custom dw (make_url default_prefix (sw_puzzle sw) h w s) = Ok (Some (sized dw h w (rooms_to_pv rs')))).
+  { apply url_level_roundtrip_nl; auto; try lia.
+    - apply no_custom_cu_good.
+    - rewrite Hc. reflexivity.
+    - rewrite Hc. exact Hser.
+    - rewrite Hc. exact Hde.
+    - discriminate. }
+  destruct HU as [H1 H2]. auto.
 Qed.
 
 Lemma valued_rooms_url_roundtrip_given sw dw vc skip allow :
@@ -244,7 +251,8 @@ Proof.
     - apply no_custom_cu_good.
     - rewrite Hc. exact Hnl.
     - rewrite Hc. exact Hser.
-    - rewrite Hc. exact Hde. }
+    - rewrite Hc. exact Hde.
+    - discriminate. }
   destruct HU as [H1 H2].
   split; [exact Hp|]. split; [exact Hf|]. split; [exact Hcan|]. split; [exact H1|exact H2].
 Qed.
